@@ -434,6 +434,9 @@ def _split_expr_over_interface(expr, interface, tests=None, trials=None):
                 mapping = list(mapping)[0]
                 newexpr = newexpr.subs(mapping, mapping.plus)
 
+            for nn in newexpr.atoms(NormalVector):
+                newexpr = newexpr.replace(nn, -nn)
+
             if not is_zero(newexpr):
                 if interface.plus in bnd_expressions:
                      newexpr += bnd_expressions[interface.plus]
